@@ -219,6 +219,5 @@ def run(ctx):
         R, S = execute(sc)
         judge(ctx, sc, R, S)
     for k in ('outcome-done', 'outcome-timeout', 'outcome-nack', 'outcome-valfail'):
-        if not ctx.events.get(k):
-            ctx.inconclusive(f'no {k} observed')
+        ctx.need_event(k)
     ctx.assumptions = ['an object without any final-block marker is outside the statement', 'the legacy front-end is the one segment_fetcher uses']
